@@ -130,3 +130,18 @@ func singleReturn(g *ssa.Function, idx int) ssa.Value {
 	}
 	return v
 }
+
+
+// returnValues: the values the returns of g yield for result idx.
+func returnValues(g *ssa.Function, idx int) []ssa.Value {
+	var out []ssa.Value
+	for _, b := range g.Blocks {
+		if b == g.Recover || len(b.Instrs) == 0 {
+			continue
+		}
+		if ret, ok := b.Instrs[len(b.Instrs)-1].(*ssa.Return); ok && idx < len(ret.Results) {
+			out = append(out, RetVals(ret, idx)...)
+		}
+	}
+	return out
+}
